@@ -347,10 +347,51 @@ func clChecksumSampledBeforeClose(c *Ctx) {
 		in ssa.Instruction
 	}
 	var sums, closes []site
+	cellOfSite := map[ssa.Instruction]ssa.Value{}
+	famC := map[*ssa.Function]bool{}
+	for _, f := range WithAnon(fn) {
+		famC[f] = true
+	}
+	isFW := func(t types.Type) bool { n, ok := t.(*types.Named); return ok && n.Obj().Name() == "FileWriter" }
 	for _, f := range WithAnon(fn) {
 		for _, in := range p.Info(f).Instrs {
 			cc := callOf(in)
-			if cc == nil || !cc.IsInvoke() {
+			if cc == nil {
+				continue
+			}
+			// a shared helper that samples Checksum() of the writers it is given
+			if h := cc.StaticCallee(); h != nil && !cc.IsInvoke() && h.Blocks != nil && h.Package() != nil && h.Package().Pkg.Path() == modPath && !famC[h] && p.helperCall(in) == nil {
+				for _, hin := range p.Info(h).Instrs {
+					hc := callOf(hin)
+					if hc == nil || !hc.IsInvoke() || hc.Method.Name() != "Checksum" || !isFW(hc.Value.Type()) {
+						continue
+					}
+					// receiver = element of a slice parameter of h
+					if ld, ok := hc.Value.(*ssa.UnOp); ok {
+						if ia, ok := ld.X.(*ssa.IndexAddr); ok {
+							for i, prm := range h.Params {
+								if ia.X == ssa.Value(prm) && i < len(cc.Args) {
+									if al, ok := strip(cc.Args[i]).(*ssa.UnOp); ok {
+										var cell ssa.Value
+										switch a := al.X.(type) {
+										case *ssa.FreeVar:
+											cell = closureBinding(f, a)
+										case *ssa.Alloc:
+											cell = a
+										}
+										if cell != nil {
+											sums = append(sums, site{f, in})
+											cellOfSite[in] = cell
+										}
+									}
+								}
+							}
+						}
+					}
+				}
+				continue
+			}
+			if !cc.IsInvoke() {
 				continue
 			}
 			if n, ok := cc.Value.Type().(*types.Named); !ok || n.Obj().Name() != "FileWriter" {
@@ -389,7 +430,11 @@ func clChecksumSampledBeforeClose(c *Ctx) {
 	for _, s := range sums {
 		ok := true
 		for _, k := range closes {
-			if !sameWriters(p, s.f, callOf(s.in).Value, k.f, callOf(k.in).Value) {
+			if cell, viaHelper := cellOfSite[s.in]; viaHelper {
+				if sliceCellOfElem(k.f, callOf(k.in).Value) != cell {
+					continue
+				}
+			} else if !sameWriters(p, s.f, callOf(s.in).Value, k.f, callOf(k.in).Value) {
 				continue
 			}
 			if !before(s, k) {
@@ -503,6 +548,19 @@ func klenOf(v ssa.Value) (ssa.Value, string, bool) {
 	call, ok := strip(v).(*ssa.Call)
 	if !ok {
 		return nil, "", false
+	}
+	// a pure private accessor wrapping the decode: evaluate its body with the
+	// parameter bound to the actual argument
+	if callee := call.Call.StaticCallee(); callee != nil && callee.Blocks != nil && len(callee.Blocks) == 1 && len(callee.Params) == 1 && len(call.Call.Args) == 1 {
+		if _, isBO, _, _ := byteOrderCall(call); isBO == "" {
+			if ret, isRet := callee.Blocks[0].Instrs[len(callee.Blocks[0].Instrs)-1].(*ssa.Return); isRet && len(ret.Results) == 1 {
+				base, order, ok := klenOf(ret.Results[0])
+				if ok && base == ssa.Value(callee.Params[0]) {
+					return strip(call.Call.Args[0]), order, true
+				}
+				return nil, order, false
+			}
+		}
 	}
 	order, m, args, ok := byteOrderCall(call)
 	if !ok || m != "Uint16" {
